@@ -18,6 +18,15 @@ ASSUMPTIONS = [
     "Go runtime, slices, append/copy, math/bits, encoding/binary behave as documented",
 ]
 
+DEFAULT_MODULES = ["RProofs.BSet", "RProofs.BSetQuery"]
+FACTS = "RProofs.Facts.Constants"
+F_SERIAL = ["RModel.Facts.serialCookie_spec", "RModel.Facts.serialCookieNoRun_spec", "RModel.Facts.noOffsetThreshold_spec",
+            "RModel.Facts.arrayDefaultMaxSize_spec", "RModel.Facts.maxCapacity_spec", "RModel.Facts.bitmap_sizes",
+            "RModel.Facts.getSizeInBytesFromCardinality_spec", "RModel.Facts.run_size_constants",
+            "RModel.Facts.runContainer16SerializedSizeInBytes_spec", "RModel.Facts.arrayContainerSizeInBytes_spec"]
+F_THRESH = ["RModel.Facts.arrayDefaultMaxSize_spec", "RModel.Facts.maxCapacity_spec", "RModel.Facts.bitmap_sizes",
+            "RModel.Facts.invalidCardinality_spec", "RModel.Facts.maxUint_spec"]
+
 L1_ALGEBRA = ["RModel.BSet.mem_combine", "RModel.BSet.canon_combine", "RModel.BSet.canon_ext",
               "RModel.BSet.mem_union", "RModel.BSet.mem_inter", "RModel.BSet.mem_xor", "RModel.BSet.mem_diff",
               "RModel.BSet.canon_union", "RModel.BSet.canon_inter", "RModel.BSet.canon_xor", "RModel.BSet.canon_diff"]
@@ -32,21 +41,24 @@ L1_NBR = ["RModel.BSet.nextValue_some", "RModel.BSet.nextValue_none", "RModel.BS
 L1_XFORM = ["RModel.BSet.mem_shift", "RModel.BSet.canon_shift", "RModel.BSet.mem_flipRange", "RModel.BSet.canon_xor"]
 
 PROPS = {
-    "C01": {"suites": [("alg", 1.0), ("kern", 0.3), ("popcnt", 1.0)], "theorems": L1_ALGEBRA,
+    "C01": {"suites": [("alg", 1.0), ("kern", 0.3), ("popcnt", 1.0)], "theorems": L1_ALGEBRA + F_THRESH,
+            "modules": DEFAULT_MODULES + [FACTS],
             "owns": {"and", "or", "xor", "andnot", "iand", "ior", "ixor", "iandnot", "andcard", "orcard", "isect", "eq", "dig",
                      "kern", "popcnt"}},
-    "C02": {"suites": [("hist", 1.0)], "theorems": L1_MUT + L1_ALGEBRA[:3],
+    "C02": {"suites": [("hist", 1.0)], "theorems": L1_MUT + L1_ALGEBRA[:3] + F_THRESH, "modules": DEFAULT_MODULES + [FACTS],
             "owns": {"new", "add", "cadd", "addint", "addmany", "rem", "crem", "addr", "remr", "flip", "clear", "opt", "clone",
                      "cowclone", "detach", "setcow", "dig", "card", "empty", "of"}},
     "C03": {"suites": [("query", 1.0), ("kernq", 0.3)], "theorems": L1_QUERY,
             "owns": {"card", "empty", "has", "min", "max", "rank", "sel", "cir", "iwi", "eq", "toarr", "toexarr", "chkeq", "dig", "kern"}},
-    "C05": {"suites": [("ser", 1.0)], "theorems": ["RModel.BSet.canon_ext"],
+    "C05": {"suites": [("ser", 1.0)], "theorems": ["RModel.BSet.canon_ext"] + F_SERIAL, "modules": DEFAULT_MODULES + [FACTS],
             "owns": {"ser", "rd", "wrfail", "trunc", "wf", "dig", "add", "or"}},
-    "C06": {"suites": [("spec", 1.0)], "theorems": ["RModel.BSet.canon_ext"], "owns": {"spec", "ser", "card", "toarr"}},
-    "C09": {"suites": [("hist", 1.0), ("alg", 0.7), ("xform", 0.7), ("ser", 0.5), ("kernwf", 1.0)], "theorems": ["RModel.BSet.canon_ext"],
+    "C06": {"suites": [("spec", 1.0)], "theorems": ["RModel.BSet.canon_ext"] + F_SERIAL, "modules": DEFAULT_MODULES + [FACTS], "owns": {"spec", "ser", "card", "toarr"}},
+    "C09": {"suites": [("hist", 1.0), ("alg", 0.7), ("xform", 0.7), ("ser", 0.5), ("kernwf", 1.0)], "theorems": ["RModel.BSet.canon_ext"] + F_THRESH,
+            "modules": DEFAULT_MODULES + [FACTS],
             "owns": {"wf", "kernwf"}},
-    "C10": {"suites": [("fuzzdec", 1.0)], "theorems": ["RModel.BSet.canon_ext"], "owns": None},
-    "C14": {"suites": [("hist", 1.0), ("alg", 0.7), ("xform", 0.5)], "theorems": ["RModel.BSet.canon_ext"], "owns": {"size"}},
+    "C10": {"suites": [("fuzzdec", 1.0)], "theorems": ["RModel.BSet.canon_ext"] + F_SERIAL, "modules": DEFAULT_MODULES + [FACTS], "owns": None},
+    "C14": {"suites": [("hist", 1.0), ("alg", 0.7), ("xform", 0.5)], "theorems": ["RModel.BSet.canon_ext"] + F_SERIAL,
+            "modules": DEFAULT_MODULES + [FACTS], "owns": {"size"}},
     "C15": {"suites": [("nbr", 1.0), ("kernq", 0.3)], "theorems": L1_NBR, "owns": {"nv", "pv", "nav", "pav", "kern"}},
     "C16": {"suites": [("xform", 1.0)], "theorems": L1_XFORM, "owns": {"off", "off32", "sflip", "eq"}},
 }
